@@ -72,7 +72,7 @@ impl GenericSocketBackend {
                     Ok(next_peer_id)
                 }
                 Err(e) => {
-                    self.peer_disconnected(&next_peer_id);
+                    self.peer_disconnected(&next_peer_id).await;
                     Err(e.into())
                 }
             };
@@ -114,8 +114,8 @@ impl MultiPeerBackend for GenericSocketBackend {
         };
     }
 
-    fn peer_disconnected(&self, peer_id: &PeerIdentity) {
-        self.peers.remove_sync(peer_id);
+    async fn peer_disconnected(&self, peer_id: &PeerIdentity) {
+        self.peers.remove_async(peer_id).await;
         match &self.fair_queue_inner {
             None => {}
             Some(inner) => {
